@@ -264,7 +264,10 @@ class Catalogue:
             return None
         # wrong base type at top level, nullable at non-null position, list mismatch, nested in list / object literals
         plans = [("echo0", "$w: String", "$w"), ("echo2", "$w: Int", "$w"), ("echo6", "$w: Int", "$w"), ("echo0", "$w: [Int]", "$w"),
-                 ("echo6", "$w: String", "[$w]"), ("echo8", "$w: String", "[[$w]]"), ("echo6", "$w: [Int]", "[$w]")]
+                 ("echo6", "$w: String", "[$w]"), ("echo8", "$w: String", "[[$w]]"), ("echo6", "$w: [Int]", "[$w]"),
+                 # a default value only excuses the OUTERMOST nullability, never that of list items
+                 ("echo7", '$w: [String] = ["a"]', "$w"), ("echo7", "$w: [String]!", "$w"), ("echo7", '$w: [String!] = ["a"]', "$w"),
+                 ("echo7", "$w: [String!]", "$w")]
         for fn, decl, use in plans:
             if fn in self.sg.echo:
                 for m in _sites(q, r"\b" + fn + r"\b(?!\()")[:1]:
